@@ -541,3 +541,41 @@ def type_loop_complete(ctx, rule, fis, minimum=1):
     if n < minimum:
         ctx.fail(f"{rule}: only {n} loops over literal element-type lists found (minimum {minimum})")
     return n
+
+
+def stale_loop_variable(ctx, rule, fis):
+    """A name that a `for` body reads, that an EARLIER loop of the same function assigned inside its body, and that is neither assigned
+    in this body, nor its loop target, nor re-assigned at function level between the two loops, carries the value of the last iteration
+    of the earlier loop into every iteration of this one (per-row quantity used stale).  Returns loops checked."""
+    import ast
+    from ppsa.astutil import norm
+    n = 0
+    for fi in fis:
+        loops = [st for st in fi.node.body if isinstance(st, (ast.For, ast.While))]
+        if len(loops) < 2:
+            continue
+        def assigned(nodes):
+            out = set()
+            for b in nodes:
+                for x in ast.walk(b):
+                    if isinstance(x, ast.Name) and isinstance(x.ctx, ast.Store):
+                        out.add(x.id)
+            return out
+        for li, lp in enumerate(loops):
+            n += 1
+            own = assigned(lp.body) | (assigned([lp.target]) if isinstance(lp, ast.For) else set())
+            reads = {x.id for b in lp.body for x in ast.walk(b) if isinstance(x, ast.Name) and isinstance(x.ctx, ast.Load)}
+            stale = set()
+            for prev in loops[:li]:
+                cand = (assigned(prev.body) - (assigned([prev.target]) if isinstance(prev, ast.For) else set())) & reads - own
+                if not cand:
+                    continue
+                # re-assigned at function level between the loops?
+                between = [st for st in fi.node.body if prev.end_lineno < st.lineno < lp.lineno and not isinstance(st, (ast.For, ast.While))]
+                cand -= assigned(between)
+                stale |= cand
+            ctx.ob(rule, f"{fi.module.name}::{fi.qualname}::loop@{li}", not stale,
+                   "every per-iteration quantity is computed in the loop that uses it" if not stale else
+                   f"the loop at line {lp.lineno} reads {sorted(stale)}, last assigned inside an earlier loop: every iteration uses the value of "
+                   "that loop's final row", fi.loc(lp))
+    return n
